@@ -3,20 +3,22 @@ package main
 // Rules added after the first build (rounds of seeded changes and neutral
 // refactorings); appended to each property's explanation in the evidence.
 var laterRules = map[string]string{
+	"C14": "C14-rejected: imports C11-Q2 for the lifecycle setters.",
+	"C02": "V7: imports the C19 typestate of UnmarshalCOSE (the envelope is not modified after go-cose decoded it).",
 	"C01": "Also: the container's IsEmpty() is true exactly for len(values)=0 (R3); the per-element check of the container walks may be delegated to a helper that validates its element parameter on every nil-returning path. R1 also accepts a Validate method that walks the getters itself. R3 decided per φ edge of the returned error; copy may be a second walk or append-built.",
 	"C03": "S5: the payload kept in the signing Evidence and the token returned are freshly allocated memory (E5 provenance). S6: Verify fails only after an error of one of its go-cose calls or under the nil-message guard.",
 	"C04": "T3 also judges the acceptance side of the decoder limits; the library defaults are known findings, any other limit is a violation. T7: fresh instances. T9: imports C01-R1..R3 (acceptance is the validator's verdict on the decoded object).",
-	"C05": "Comparisons of interface values and map lookups with interface keys are panic sites too. The nil check of an interface method value is a site.",
-	"C06": "A5: no loop-carried accumulation through a superlinear builder (string +, fmt, errors.Join, strings.Join/Repeat) in decode-reachable code unless the trip count is constant. A5 also: append to a capacity-clipped accumulator; a buffer sized by the remaining input kept per iteration of an input-bounded loop.",
-	"C07": "P7: the COSE path decodes claims only through DecodeClaimsFromCBOR. P8: imports the C08-G1 gates for the validating decoders (the object's own Validate()).",
+	"C05": "Comparisons of interface values and map lookups with interface keys are panic sites too. The nil check of an interface method value is a site. E9: no reflect.Value mutator in the encoding package.",
+	"C06": "A5: no loop-carried accumulation through a superlinear builder (string +, fmt, errors.Join, strings.Join/Repeat) in decode-reachable code unless the trip count is constant. A5 also: append to a capacity-clipped accumulator; a buffer sized by the remaining input kept per iteration of an input-bounded loop. A6: every mutex taken in decode-reachable code is released on every path to a return.",
+	"C07": "P7: the COSE path decodes claims only through DecodeClaimsFromCBOR. P8: imports the C08-G1 gates for the validating decoders (the object's own Validate()). P1: the lookup key is exactly the decoded selector field.",
 	"C08": "G4: the validating encoders return freshly allocated memory.",
-	"C09": "I5d: acceptance side of the decoder limits (default = known finding). I6: encode returns the codec's output. I7: walker skip conditions and visit-all for extension profiles. I9: imports C07-P1 (the CBOR dispatcher looks at nothing but the profile key the encoder emits).",
-	"C10": "W7: encode returns the codec's output. W8: emitted bytes are fresh memory. W9: extension-profile serialiser omits only under the C15-H4 conditions. W10: length-header cells. W11: P1 flag validity vs presence. W12: imports C01-R3 (what is emitted is what validation walked).",
-	"C12": "J7: encode returns the codec's output. J8: JSON walkers for extension profiles skip only under the C15-H4 conditions. J9: the dispatcher reads only profile members.",
-	"C13": "K5: IsEmpty() ⇔ len(values)=0. Calls through function-typed parameters are resolved per call site.",
-	"C15": "H4 also: the recursion over collected embedded structs visits every one. Anchors are found by role. H1: header operands are exactly the count (or its width conversion). H8: the embed collector asks only structural questions. H4 hosted form: shared field loop + per-field visitor judged on both regions.",
-	"C16": "N2 also: a failing registration writes no package-level state at all. N5: no pointer to a loop-overwritten variable kept across iterations.",
+	"C09": "I5d: acceptance side of the decoder limits (default = known finding). I6: encode returns the codec's output. I7: walker skip conditions and visit-all for extension profiles. I9: imports C07-P1 (the CBOR dispatcher looks at nothing but the profile key the encoder emits). I10: imports C07-P4 (GetProfile cells). I11: imports C15-H5/H6 (repeated keys refused).",
+	"C10": "W7: encode returns the codec's output. W8: emitted bytes are fresh memory. W9: extension-profile serialiser omits only under the C15-H4 conditions. W10: length-header cells. W11: P1 flag validity vs presence. W12: imports C01-R3 (what is emitted is what validation walked). W13: imports C07-P4 (GetProfile cells).",
+	"C12": "J7: encode returns the codec's output. J8: JSON walkers for extension profiles skip only under the C15-H4 conditions. J9: the dispatcher reads only profile members. J10: imports C07-P4 (GetProfile cells).",
+	"C13": "K5: IsEmpty() ⇔ len(values)=0. Calls through function-typed parameters are resolved per call site. K6: imports C07-P4 (GetProfile cells).",
+	"C15": "H4 also: the recursion over collected embedded structs visits every one. Anchors are found by role. H1: header operands are exactly the count (or its width conversion). H8: the embed collector asks only structural questions. H4 hosted form: shared field loop + per-field visitor judged on both regions. H9: no reflect.Value mutator in the encoding package.",
+	"C16": "N2 also: a failing registration writes no package-level state at all. N5: no pointer to a loop-overwritten variable kept across iterations. N6: imports C07-P1 (exact key).",
 	"C17": "X5: no mutable package-level memory reachable from objects handed to callers (E5 'holds' provenance, leak sites, API results). E5: captured variables as pseudo-parameters, callback-sensitive second pass, reflect.Value handles may be written through.",
 	"C18": "M4: encoders and signers return freshly allocated memory. E5: captured variables as pseudo-parameters, callback-sensitive second pass, reflect.Value handles may be written through.",
-	"C19": "Y6: the token returned by Sign / ValidateAndSign is freshly allocated memory. Y7: imports C09-I1 (the payload signed is the encoding of the attached claims).",
+	"C19": "Y6: the token returned by Sign / ValidateAndSign is freshly allocated memory. Y7: imports C09-I1 (the payload signed is the encoding of the attached claims). Y8: decoder limits on the acceptance side (default = known finding). Y9: imports C15-H4 for the CBOR serialiser.",
 }
